@@ -3,6 +3,7 @@ package main
 
 import (
 	"fmt"
+	"math"
 	"strings"
 	"sync"
 
@@ -230,6 +231,127 @@ func apply(a arrays.Array2D[int], g grid, w, h int, o op, val int) (sig, msg str
 	return "", ""
 }
 
+// typedGrids runs the cell model over ONE element type: shapes up to 3x3, every cell given a distinct
+// value made by mk, then New2DFilled / Set / Get / Fill / Row / Clone / New2DFromJagged / String against a
+// [][]T model. String's model is the documented layout with every cell rendered by fmt.Sprint on the cell
+// itself. same decides whether two cells are the very same value (identity for pointers).
+func typedGrids[T any](tname string, mk func(i int) T, same func(a, b T) bool) {
+	render := func(g [][]T) string {
+		var sb strings.Builder
+		sb.WriteByte('[')
+		for y, row := range g {
+			if y > 0 {
+				sb.WriteByte(' ')
+			}
+			sb.WriteByte('[')
+			for x, c := range row {
+				if x > 0 {
+					sb.WriteByte(' ')
+				}
+				sb.WriteString(fmt.Sprint(c))
+			}
+			sb.WriteByte(']')
+		}
+		sb.WriteByte(']')
+		return sb.String()
+	}
+	for w := 0; w <= 3; w++ {
+		for h := 0; h <= 3; h++ {
+			rp := map[string]any{"element_type": tname, "w": w, "h": h}
+			e.Input(w != h)
+			if p, m := enum.Catch(func() {
+				a := arrays.New2D[T](w, h)
+				g := make([][]T, h)
+				for y := range g {
+					g[y] = make([]T, w)
+				}
+				cmp := func(what string, a arrays.Array2D[T], g [][]T) bool {
+					e.Call()
+					for y := 0; y < h; y++ {
+						for x := 0; x < w; x++ {
+							if !same(a.Get(x, y), g[y][x]) {
+								e.Fail("element-type|"+what, rp, "Array2D[%s] %dx%d %s: cell (%d,%d) = %v, want %v", tname, w, h, what, x, y, a.Get(x, y), g[y][x])
+								return false
+							}
+						}
+					}
+					if got, want := a.String(), render(g); got != want {
+						e.Fail("String", rp, "Array2D[%s] %dx%d %s: String() = %q, want %q (every cell rendered by fmt.Sprint)", tname, w, h, what, got, want)
+						return false
+					}
+					return true
+				}
+				if !cmp("zero-valued", a, g) {
+					return
+				}
+				n := 0
+				for y := 0; y < h; y++ {
+					for x := 0; x < w; x++ {
+						n++
+						v := mk(n)
+						a.Set(x, y, v)
+						g[y][x] = v
+					}
+				}
+				if !cmp("after Set of every cell", a, g) {
+					return
+				}
+				c := a.Clone()
+				cg := make([][]T, h)
+				for y := range g {
+					cg[y] = append([]T{}, g[y]...)
+				}
+				if w > 0 && h > 0 {
+					v := mk(100)
+					c.Set(w-1, h-1, v)
+					cg[h-1][w-1] = v
+					if !cmp("original after writing to its clone", a, g) || !cmp("clone", c, cg) {
+						return
+					}
+					fv := mk(200)
+					a.Fill(w-1, h-1, 0, h/2, fv)
+					for y := h / 2; y < h; y++ {
+						for x := 0; x < w; x++ {
+							g[y][x] = fv
+						}
+					}
+					if !cmp("after Fill", a, g) {
+						return
+					}
+					row := a.Row(0)
+					rv := mk(300)
+					row[0] = rv
+					g[0][0] = rv
+					if !cmp("after a write through Row(0)", a, g) {
+						return
+					}
+				}
+				fl := mk(400)
+				f := arrays.New2DFilled(w, h, fl)
+				fg := make([][]T, h)
+				for y := range fg {
+					fg[y] = make([]T, w)
+					for x := range fg[y] {
+						fg[y][x] = fl
+					}
+				}
+				if !cmp("New2DFilled", f, fg) {
+					return
+				}
+				j := arrays.New2DFromJagged(w, h, g)
+				cmp("New2DFromJagged(model)", j, g)
+			}); p {
+				e.Fail("element-type|panic", rp, "Array2D[%s] %dx%d: %s", tname, w, h, m)
+			}
+		}
+	}
+}
+
+type cellS struct{ A, B int }
+type cellStringer struct{ n int }
+
+func (c cellStringer) String() string { return fmt.Sprintf("<%d>", c.n) }
+
 func main() {
 	ev.GuardFor("C08")
 	r := ev.Start("C08")
@@ -396,5 +518,51 @@ func main() {
 	}
 	r.Set("large_size_family_calls", famCalls)
 	r.Sample(map[string]any{"w": 3, "h": 2, "ops": []string{"Set(2,0,..)", "Get(0,1)"}})
-	e.Finish(fmt.Sprintf("every shape w,h in 0..%d from the all-cells-distinct labelling: every Set/Get with x in -1..w, y in -1..h; Row(y) and RowSpan(x1<=x2,y) incl. out of range with write-through both ways; Fill for every pair of corners in either order incl. one coordinate outside; Clone; String; every ordered pair of operations for shapes up to %dx%d; New2DFilled; New2DFromJagged for every row count 0..h+1 and row lengths 0..w+1; oracle: cell-grid model with frame condition (exactly the intended cells change); non-trivial = non-square shape", maxDim, pairDim, pairDim))
+	// element types: the same cell model over strings, floats, structs, pointers, interfaces, slices
+	typedGrids("string", func(i int) string { return []string{"", "a b", "x", "[", "]", "0"}[i%6] + fmt.Sprint(i) }, func(a, b string) bool { return a == b })
+	typedGrids("float64", func(i int) float64 {
+		return []float64{math.Copysign(0, -1), 1.5, math.Inf(1), math.NaN(), -2}[i%5] + float64(i%2)
+	}, func(a, b float64) bool { return math.Float64bits(a) == math.Float64bits(b) })
+	typedGrids("struct", func(i int) cellS { return cellS{i, -i} }, func(a, b cellS) bool { return a == b })
+	typedGrids("*struct", func(i int) *cellS {
+		if i%4 == 0 {
+			return nil
+		}
+		return &cellS{i, -i}
+	}, func(a, b *cellS) bool { return a == b })
+	typedGrids("any", func(i int) any {
+		switch i % 6 {
+		case 0:
+			return nil
+		case 1:
+			return i
+		case 2:
+			return &cellS{i, i}
+		case 3:
+			return fmt.Sprint("s", i)
+		case 4:
+			return cellStringer{i}
+		}
+		return &[]int{i}
+	}, func(a, b any) bool { return a == b })
+	typedGrids("[]int", func(i int) []int {
+		if i%3 == 0 {
+			return nil
+		}
+		return []int{i, i + 1}
+	}, func(a, b []int) bool {
+		return len(a) == len(b) && (len(a) == 0 || &a[0] == &b[0]) && (a == nil) == (b == nil)
+	})
+	typedGrids("*[]int", func(i int) *[]int { return &[]int{i} }, func(a, b *[]int) bool { return a == b })
+	typedGrids("map[int]int", func(i int) map[int]int { return map[int]int{i: i} }, func(a, b map[int]int) bool { return fmt.Sprintf("%p", a) == fmt.Sprintf("%p", b) })
+	typedGrids("*map[int]int", func(i int) *map[int]int { return &map[int]int{i: i} }, func(a, b *map[int]int) bool { return a == b })
+	typedGrids("*[2]int", func(i int) *[2]int { return &[2]int{i, i} }, func(a, b *[2]int) bool { return a == b })
+	typedGrids("Stringer", func(i int) fmt.Stringer { return cellStringer{i} }, func(a, b fmt.Stringer) bool { return a == b })
+	typedGrids("error", func(i int) error {
+		if i%2 == 0 {
+			return nil
+		}
+		return fmt.Errorf("e%d", i)
+	}, func(a, b error) bool { return a == b })
+	e.Finish(fmt.Sprintf("every shape w,h in 0..%d from the all-cells-distinct labelling: every Set/Get with x in -1..w, y in -1..h; Row(y) and RowSpan(x1<=x2,y) incl. out of range with write-through both ways; Fill for every pair of corners in either order incl. one coordinate outside; Clone; String; the same model over 12 element types (strings, floats incl. NaN and -0, structs, pointers to structs/slices/maps/arrays, interfaces, slices, maps, Stringers, errors) on shapes up to 3x3 with String rendered cell by cell; every ordered pair of operations for shapes up to %dx%d; New2DFilled; New2DFromJagged for every row count 0..h+1 and row lengths 0..w+1; oracle: cell-grid model with frame condition (exactly the intended cells change); non-trivial = non-square shape", maxDim, pairDim, pairDim))
 }
